@@ -45,7 +45,8 @@ ScheduleClauses(r) ==
 
 \* uncontrolled: durations in ms; generous margins around the limit where either outcome is allowed
 SweepClauses(r) ==
-    LET early == 2 * r.dur_ms < r.limit_ms            \* finished well in time
+    \* finished well in time - by the MEASURED end of the function body, not by its nominal duration (machine load)
+    LET early == r.ended_ms >= 0 /\ 2 * r.ended_ms < r.limit_ms
         late == r.dur_ms > 2 * r.limit_ms + 100       \* certainly not in time
         okOutcome == IF r.kind \in {"sleep", "native", "swallow", "retnone", "retzero", "retempty"} THEN "value" ELSE "own_exc"
     IN Common(r)
